@@ -163,8 +163,10 @@ def generate(seed: int, config: str, tier: str) -> Dict[str, Any]:
                 elif r < 0.8:
                     script.append(["hot", e, qi, [rng.randrange(len(docs)) for _ in range(rng.randint(1, 3))], ci,
                                    rng.choice([3, 10, 100 if rng.random() < 0.3 else 20])])
-                elif r < 0.9:
+                elif r < 0.86:
                     script.append(["recompile", e, qi, di, ci])
+                elif r < 0.9:
+                    script.append(["envfind", e, qi, di, ci])
                 elif faulty:
                     script.append([frng.choice(["gc", "repurge"])])
                 else:
@@ -177,8 +179,10 @@ def generate(seed: int, config: str, tier: str) -> Dict[str, Any]:
                 else:
                     script.append([frng.choice(["gc", "repurge"])])
             else:
-                if r < 0.3:
+                if r < 0.25:
                     script.append(["recompile", e, qi, di, ci])
+                elif r < 0.4:
+                    script.append(["envfind", e, qi, di, ci])
                 elif r < 0.65:
                     script.append(["findall", e, qi, di, ci])
                 elif r < 0.95:
@@ -200,7 +204,7 @@ def generate(seed: int, config: str, tier: str) -> Dict[str, Any]:
             ss = sites(docs[di], f"d{di}")
             if ss:
                 p, k = frng.choice(ss)
-                faults["storeerr"].append([p, k])
+                faults["storeerr"].append([p, k, frng.choice(["store", "store", "key", "index", "type", "value"])])
     plan = {"kind": kind, "docs": docs, "wraps": wraps, "ctxs": ctxs, "queries": queries, "envs": envs, "clients": clients, "faults": faults}
     knobs = {"p_sched": rng.choice([0.3, 0.5, 0.7]), "p_get": rng.choice([0.3, 0.6]), "p_quantum": rng.choice([0.5, 0.8, 0.95])}
     return {"property": PROPERTY, "config": config, "seed": seed, "knobs": knobs, "plan": plan}
@@ -525,6 +529,18 @@ def _sync_op(w: World, ctx: Ctx, cid: int, op: List[Any], yield_point: Any = Non
         w.check_all(desc, [("?", v) for v in got_vals], exc, ref.for_findall(), True)
         ctx.state("sync", e, "findall")
         return None
+    if kind == "envfind":
+        # the environment-level entry point compiles the text again on the shared environment and evaluates
+        exc4: Optional[str] = None
+        vals4: List[Any] = []
+        try:
+            vals4 = [core.tj(v) for v in w.envs[e].findall(w.texts[qi], w.docs[di], **w.kw(ci))]
+        except Exception as ex:  # noqa: BLE001
+            exc4 = type(ex).__name__
+        ctx.log.add("envfind", cid, e, qi, di, ci, exc4 or len(vals4))
+        w.check_all(desc, [("?", v) for v in vals4], exc4, ref.for_findall(), True)
+        ctx.state("sync", e, "envfind")
+        return None
     if kind == "hot":
         n = int(op[5])
         dis = [d % len(w.docs) for d in op[3]] or [0]
@@ -679,8 +695,8 @@ def _run_tasks(spec: Dict[str, Any], ctx: Ctx) -> None:
     plan = spec["plan"]
     knobs = spec.get("knobs", {})
     store = Store(ctx.choose, p_get=float(knobs.get("p_get", 0.4)))
-    for p, k in plan["faults"]["storeerr"]:
-        store.failing[(p, k)] = None
+    for f in plan["faults"]["storeerr"]:
+        store.failing[(f[0], f[1])] = f[2] if len(f) > 2 else "store"
         ctx.count("fault.storeerr.configured")
     w = World(plan, ctx, store)
     lenient = bool(plan["faults"]["storeerr"])
